@@ -232,7 +232,12 @@ def _range(d, sheet, avail, level):
 
 
 def _formula(d, sheet, avail, level):
-    k = d.pick(12)
+    k = d.pick(13)
+    if k == 12:
+        # a pure LINK: the whole formula is one reference (=B1, =Sheet2!A1),
+        # preferably to another formula cell
+        s, a = avail[-1 - d.pick(min(4, len(avail)))]
+        return ['ref', _q(s, a, sheet)]
     if k == 10:
         # a comparison as the ROOT of a formula (the cell holds a boolean)
         return ['op', d.choice(['<', '>', '=', '<=', '>=', '<>']),
